@@ -2,7 +2,8 @@
 Correspondence units: ws_encode (writeFrame), ws_parse (readFrame over the ring buffer), ws_feed
 (WebSocketTemporaryHandler.__call__ over a chunked stream), ws_available (_frameAvailable), ws_utf8
 (bytes.decode('utf-8') succeeds), ws_rfc (the spec-side RFC encoder of the theorems vs an independent
-Python one).  Oracle: round trip + RFC form + exactly-once in-order delivery on the implementation alone."""
+Python one), ws_factory / ws_defaults (the public constructors WebSocketFrame.Ping/Pong/Close/Text/Binary, Model/WsFactory.v),
+ws_out (WebSocketTemporaryHandler.send / close: the bytes the server writes).  Oracle: round trip + RFC form + exactly-once in-order delivery on the implementation alone."""
 import struct, itertools
 from harness import lib
 
@@ -13,7 +14,13 @@ RULE = ("frames: every opcode x mask x fin/rsv bits x payload length at the 125/
         "sequences, every cut position in the header / extended length / key and around the end of frames of length 126, 127, 300, 65535, "
         "65536, random chunkings of long ones, byte-by-byte, plus malformed streams (unmasked, bad opcode, bad utf-8, Close twice); the "
         "oracle checks the final deliveries and, read by read, that exactly the frames complete so far have been delivered; "
-        "non-trivial = extended length form or a cut that falls inside a frame")
+        "non-trivial = extended length form or a cut that falls inside a frame; "
+        "PUBLIC CONSTRUCTORS: Ping/Pong/Binary/Close/Text (+ their default arguments) x payload kind (ASCII, 2-/3-/4-byte UTF-8 "
+        "characters, NUL, empty, bytes and bytearray) x the 125/126/127 and 65535/65536 boundaries counted in BYTES and counted in "
+        "CHARACTERS, all frames built first and written afterwards (and written twice); handler.send / close histories on one "
+        "handler (non-ASCII text, send after close, close twice, non-str arguments) and send() issued from inside the endpoint "
+        "callback (echo), the written stream re-parsed by an independent RFC 6455 reader; two or three connections alive in one "
+        "process with their TCP reads interleaved")
 ASSUMPTIONS = ["continuation frames (opcode 0) and message fragmentation are not supported by the code and outside the statement",
                "client frames are masked, carry a wire opcode (Text/Binary/Close/Ping/Pong) and Text payloads are valid UTF-8",
                "payload length < 2^63 (RFC 6455)"]
@@ -193,6 +200,399 @@ def client_frames(r, k, maxlen=40):
         n = r.choice([0, 1, 2, 3, 5, r.randrange(0, maxlen)])
         out.append((1, 0, 0, 0, op, 1, rnd_bytes(r, 4), n, payload_for(r, op, n)))
     return out
+
+
+# ------------------------------------------------------------------ public constructors and the send path
+KINDS = ["Ping", "Pong", "Binary", "Close", "Text"]
+KIND_OP = [9, 10, 2, 8, 1]
+
+
+def rfc_parse_all(b):
+    """independent RFC 6455 section 5.2 reader of a whole byte stream: [(fin, rsv, opcode, mask, payload)];
+    ValueError when the stream does not end at a frame boundary"""
+    out, i = [], 0
+    while i < len(b):
+        if len(b) - i < 2:
+            raise ValueError("truncated header")
+        b0, b1 = b[i], b[i + 1]
+        i += 2
+        n = b1 & 0x7F
+        if n == 126:
+            if len(b) - i < 2:
+                raise ValueError("truncated length")
+            n = (b[i] << 8) | b[i + 1]
+            i += 2
+        elif n == 127:
+            if len(b) - i < 8:
+                raise ValueError("truncated length")
+            n = int.from_bytes(b[i:i + 8], "big")
+            i += 8
+        key = None
+        if b1 & 0x80:
+            key = b[i:i + 4]
+            i += 4
+        if len(b) - i < n:
+            raise ValueError("truncated payload")
+        pay = b[i:i + n]
+        i += n
+        if key is not None:
+            pay = bytes(x ^ key[j & 3] for j, x in enumerate(pay))
+        out.append((b0 >> 7, (b0 >> 4) & 7, b0 & 15, b1 >> 7, bytes(pay)))
+    return out
+
+
+def build_factory(kind, args):
+    from mpgameserver.http_server import WebSocketFrame
+    return getattr(WebSocketFrame, KINDS[kind])(*args)
+
+
+def write_frame(f):
+    from mpgameserver.http_server import writeFrameFactory
+    s = Sock()
+    writeFrameFactory(s)(f)
+    return b"".join(s.out)
+
+
+def factory_expect(kind, args):
+    """(opcode, payload bytes) the constructor call stands for, from the RFC / the documentation alone"""
+    if kind == 4:
+        return 1, args[0].encode("utf-8")
+    if kind == 3:
+        a = list(args) + [200, b"OK"][len(args):]        # documented signature Close(status=200, message=b'OK')
+        return 8, struct.pack(">H", a[0]) + bytes(a[1])
+    return KIND_OP[kind], bytes(args[0])
+
+
+def text_samples(run):
+    """str arguments for Text / send: every payload kind x the length boundaries in BYTES and in CHARACTERS"""
+    r = run.rng
+    big = run.thorough()
+    out = ["", "a", "hello", "\x00", "a\x00b", "\x7f", "héllo", "spécial €5", "中文", "\U0001f600"]
+    for n in (2, 124, 125, 126, 127, 128, 255, 256, 65534, 65535, 65536, 65537, 70000):
+        out.append("a" * n)
+    chars = ["é", "߿", "ࠀ", "€", "￿", "\U00010000", "\U0001f600", "\U0010ffff", "\x80"]
+    for ci, ch in enumerate(chars):
+        w = len(ch.encode("utf-8"))
+        # boundaries counted in characters
+        for n in (1, 31, 32, 41, 42, 43, 62, 63, 64, 124, 125, 126, 127, 128):
+            out.append(ch * n)
+        for n in ((16383, 16384, 21845, 21846, 32767, 32768, 65535, 65536) if (big or ci in (0, 3, 6)) else ()):
+            out.append(ch * n)
+        # boundaries counted in bytes: exactly B bytes, padded with ASCII in front or behind
+        for B in (125, 126, 127, 65535, 65536):
+            k = B // w
+            if B > 1000 and not (big or ci in (0, 3, 6)):
+                continue
+            out.append(ch * k + "a" * (B - k * w))
+            out.append("a" * (B - k * w) + ch * k)
+            out.append(ch * (k - 1) + "a" * (B - (k - 1) * w))
+    alpha = ["a", "z", " ", "\x00", "\x7f", "\x80", "é", "߿", "ࠀ", "中", "€", "￿", "\U00010000", "\U0001f600"]
+    for _ in range(400 if big else 60):
+        n = r.choice([r.randrange(0, 12), r.randrange(30, 70), r.randrange(100, 140), r.randrange(100, 140)])
+        out.append("".join(r.choice(alpha) for _ in range(n)))
+    for _ in range(20 if big else 3):
+        n = r.choice([r.randrange(16000, 17000), r.randrange(21000, 23000), r.randrange(32000, 33500), r.randrange(65000, 66000)])
+        out.append("".join(r.choice(alpha) for _ in range(n)))
+    return list(dict.fromkeys(out))
+
+
+def factory_cases(run):
+    """[(kind, args)] : every public constructor x payload kinds x boundary lengths, plus the default arguments"""
+    r = run.rng
+    cases = [(k, ()) for k in range(5)]
+    for s in text_samples(run):
+        cases.append((4, (s,)))
+    blens = [0, 1, 2, 5, 124, 125, 126, 127, 128, 255, 256, 65534, 65535, 65536, 65537, 70000]
+    blens += [r.randrange(0, 300) for _ in range(10)] + [r.randrange(300, 70000) for _ in range(4)]
+    for n in blens:
+        for k in (0, 1, 2):
+            if n > 1000 and k != 2 and n not in (65535, 65536):
+                continue
+            b = rnd_bytes(r, n)
+            cases.append((k, (b,)))
+            if n in (0, 5, 125, 126, 65535, 65536):
+                cases.append((k, (bytearray(b),)))
+    for status in (0, 1, 200, 255, 256, 1000, 1001, 1011, 4999, 65535):
+        for n in (0, 1, 2, 122, 123, 124, 125, 126):
+            cases.append((3, (status, rnd_bytes(r, n))))
+    for n in (65532, 65533, 65534, 65535):
+        cases.append((3, (1000, rnd_bytes(r, n))))
+    cases.append((3, (1000,)))
+    return cases
+
+
+def surrogate_free(s):
+    return not any(0xD800 <= ord(c) <= 0xDFFF for c in s)
+
+
+def factory_margs(kind, args):
+    """the same call for unit ws_factory (defaults filled in from the documentation of the constructors)"""
+    if kind == 4:
+        return [4, [[ord(c) for c in (args[0] if args else "")]]]
+    if kind == 3:
+        a = list(args) + [200, b"OK"][len(args):]
+        return [3, [a[0], bytes(a[1])]]
+    return [kind, [bytes(args[0]) if args else (b"hello" if kind < 2 else b"")]]
+
+
+def impl_out(closed, ops, echo=None):
+    """one handler, a history of send(x) / close() calls: [bytes written, closed, error code or 0]"""
+    from mpgameserver.http_server import WebSocketTemporaryHandler, WebSocketTemporaryRingBuffer
+    req = Req()
+    h = WebSocketTemporaryHandler(("h", 1), {}, {}, WebSocketTemporaryRingBuffer(req), Endpt())
+    h.closed = bool(closed)
+    e = 0
+    for op in ops:
+        try:
+            if op[0] == 0:
+                h.send(op[1])
+            else:
+                h.close()
+        except Exception as ex:      # noqa
+            e = lib.exc_code(ex)
+            break
+    return [b"".join(req.out), bool(h.closed), e]
+
+
+class EchoEndpt:
+    """an endpoint that answers every Text message from inside its callback"""
+    def __init__(self):
+        self.log = []
+
+    def callback(self, ws, opcode, payload):
+        self.log.append([opcode.value, payload])
+        if opcode.value == 1:
+            ws.send(payload)
+            ws.send(payload.upper())
+
+
+def constructors_and_send(run, viol):
+    M, r = run.model, run.rng
+
+    def form(n):
+        return "7bit" if n <= 125 else ("16bit" if n <= 65535 else "64bit")
+
+    # ---- the constructors: all frames are built first and written afterwards
+    cases = factory_cases(run)
+    run.count("constructor_calls", len(cases))
+    built = [lib.guarded(build_factory, k, a) for k, a in cases]
+    # the model sees every small call; of the long Text arguments (0.2-0.9 s each in the extracted model) the quick tier
+    # sends the three 65535/65536-byte ones below and a sample, the thorough tier all (the oracle below judges ALL)
+    large = [i for i, (k, a) in enumerate(cases) if k == 4 and a and len(a[0]) > 2000]
+    if not run.thorough():
+        fixed = [i for i in large if cases[i][1][0] in ("a" * 65536, "é" * 32768, "€" * 21845)]
+        drop = set(large) - set(fixed) - set(r.sample(large, min(len(large), 9)))
+    else:
+        drop = set()
+    sel = [i for i in range(len(cases)) if i not in drop]
+    impl, margs = [], []
+    for i in sel:
+        (k, a), b = cases[i], built[i]
+        impl.append(lib.guarded(lambda f=b[1]: [frame_obs(f), lib.guarded(write_frame, f)]) if b[0] == 0 else b)
+        margs.append(factory_margs(k, a))
+    mod = []
+    for i in range(0, len(margs), 40):
+        mod += M.call_many("ws_factory", margs[i:i + 40])
+    run.count("constructor_calls_through_model", len(sel))
+
+    def desc(c):
+        k, a = c
+        d = {"constructor": KINDS[k], "default_arguments": not a}
+        if a and k == 4:
+            d.update(chars=len(a[0]), bytes=len(a[0].encode("utf-8", "surrogatepass")), text_prefix=a[0][:8])
+        elif a:
+            d.update(bytes=len(a[-1]) if k != 3 or len(a) > 1 else 0, status=a[0] if k == 3 else None)
+        return d
+    run.compare("ws_factory", [cases[i] for i in sel], impl, mod, describe=desc)
+    from mpgameserver.http_server import WebSocketFrame
+    dflt = [frame_obs(getattr(WebSocketFrame, n)()) for n in KINDS]
+    mdf = M.call("ws_defaults", [])
+    run.compare("ws_defaults", [("Ping", "Pong", "Close", "Text", "Binary")],
+                [[dflt[0], dflt[1], dflt[3], lib.ok(dflt[4]), dflt[2]]], [mdf])
+
+    for (k, a), b in zip(cases, built):
+        if not a or (k == 4 and not surrogate_free(a[0])):
+            continue
+        run.evaluations += 1
+        op, pay = factory_expect(k, a)
+        d = dict(desc((k, a)), opcode=op, bytes=len(pay))
+        key = (KINDS[k], form(len(pay)), k == 4 and len(a[0]) != len(pay))
+        if len(pay) > 125 or key[2]:
+            run.nt(("factory", k, len(pay), len(a[0]) if k == 4 else -1))
+        if b[0] != 0:
+            viol("constructor-raises", key, dict(d, error=b[1]), "WebSocketFrame." + KINDS[k])
+            continue
+        f = b[1]
+        obs = frame_obs(f)
+        if obs[:6] != [1, 0, 0, 0, op, 0] or obs[8] != pay or obs[7] != len(pay):
+            viol("constructor-frame-wrong", key,
+                 dict(d, payload_length_field=obs[7], payload_bytes=len(obs[8]), flags=obs[:6], payload_ok=obs[8] == pay),
+                 "WebSocketFrame." + KINDS[k])
+        want = rfc_encode(1, 0, 0, 0, op, 0, b"", pay)
+        w1 = lib.guarded(write_frame, f)
+        w2 = lib.guarded(write_frame, f)
+        if w1 != [0, want] or w2 != w1:
+            viol("constructor-frame-not-rfc6455", key,
+                 dict(d, got_prefix=lib.jsonable(w1[1][:12]) if w1[0] == 0 else w1, want_prefix=lib.jsonable(want[:12]),
+                      got_len=len(w1[1]) if w1[0] == 0 else None, want_len=len(want), second_write_same=w2 == w1),
+                 "WebSocketFrame." + KINDS[k] + " + writeFrame")
+            continue
+        p = impl_parse(want + b"tail")
+        if not (p[0][0] == 0 and p[1] == b"tail" and p[0][1][:6] == [1, 0, 0, 0, op, 0] and p[0][1][7:] == [len(pay), pay]):
+            viol("constructor-frame-does-not-round-trip", key, d, "WebSocketFrame." + KINDS[k] + " + readFrame")
+    k0 = next(i for i, (k, a) in enumerate(cases) if k == 4 and a and a[0] == "€" * 42)
+    k0 = sel.index(k0)
+    run.sample({"unit": "ws_factory", "call": "Text('€' * 42)", "impl": lib.jsonable(impl[k0][1][1][1][:8]) if impl[k0][0] == 0 else impl[k0]})
+
+    # ---- handler.send / handler.close histories on ONE handler
+    texts = text_samples(run)
+    small = [s for s in texts if len(s) < 200]
+    odd = [b"bytes", None, 5, bytearray(b"x"), ["a"]]
+    hist = [(0, [[0, s]]) for s in texts if len(s) < 70 or len(s.encode("utf-8", "surrogatepass")) in (125, 126, 127, 65535, 65536)]
+    hist.append((0, [[0, "spécial €5"], [0, "second"]]))
+    hist.append((0, [[0, "€" * 42], [0, "x"], [1], [0, "after close é"], [1]]))
+    hist.append((1, [[1], [0, "é"]]))
+    for _ in range(600 if run.thorough() else 120):
+        ops = []
+        for _ in range(r.randrange(1, 8)):
+            c = r.random()
+            if c < 0.8:
+                ops.append([0, r.choice(small) if r.random() < 0.9 else r.choice(texts)])
+            elif c < 0.92:
+                ops.append([1])
+            elif c < 0.96:
+                ops.append([0, r.choice(["\ud800", "ok\udfff", "\udc80x"])])
+            else:
+                ops.append([0, r.choice(odd)])
+        hist.append((r.choice([0, 0, 0, 1]), ops))
+    run.count("send_histories", len(hist))
+    hres = [impl_out(c, ops) for c, ops in hist]
+    typed = [i for i, (c, ops) in enumerate(hist) if all(op[0] == 1 or isinstance(op[1], str) for op in ops)]
+    if not run.thorough():      # long texts: a sample through the model (the oracle below judges all histories)
+        lg = [i for i in typed if any(op[0] == 0 and len(op[1]) > 2000 for op in hist[i][1])]
+        keep = set(r.sample(lg, min(len(lg), 6)))
+        typed = [i for i in typed if i not in lg or i in keep]
+    hmod = []
+    for i in range(0, len(typed), 60):
+        hmod += M.call_many("ws_out", [[hist[j][0], [[0, [ord(ch) for ch in op[1]]] if op[0] == 0 else [1] for op in hist[j][1]]]
+                                       for j in typed[i:i + 60]])
+    run.compare("ws_out", [(hist[j][0], [len(op[1]) if op[0] == 0 else "close" for op in hist[j][1]]) for j in typed],
+                [hres[j] for j in typed], [[m[0], bool(m[1]), m[2]] for m in hmod], describe=lambda c: lib.jsonable(c))
+    for (c0, ops), (written, closed, e) in zip(hist, hres):
+        run.evaluations += 1
+        # what a client must see: the Text messages sent so far, in order, each one final unmasked frame; a Close
+        # frame where close() was first called on a handler not yet closed; nothing else, no stray bytes
+        want, cl, stop = [], bool(c0), None
+        for op in ops:
+            if op[0] == 1:
+                if not cl:
+                    want.append((8, None))
+                cl = True
+            elif not isinstance(op[1], str):
+                stop = "TypeError"
+                break
+            elif not surrogate_free(op[1]):
+                stop = "UnicodeError"
+                break
+            else:
+                want.append((1, op[1].encode("utf-8")))
+        d = {"closed_before": bool(c0),
+             "calls": [("send", len(op[1]), len(op[1].encode("utf-8", "surrogatepass"))) if op[0] == 0 and isinstance(op[1], str)
+                       else ("send", repr(op[1])) if op[0] == 0 else ("close",) for op in ops]}
+        multi = any(op[0] == 0 and isinstance(op[1], str) and len(op[1]) != len(op[1].encode("utf-8", "surrogatepass")) for op in ops)
+        key = (multi, len(ops) > 1)
+        if multi:
+            run.nt(("send", repr(ops)))
+        if (stop is None) != (e == 0) or (stop == "TypeError" and e != lib.ERR["TypeError"]):
+            viol("send-wrong-exception", key, dict(d, exception=e, expected=stop), "WebSocketTemporaryHandler.send")
+            continue
+        try:
+            got = rfc_parse_all(written)
+        except ValueError as ex:
+            viol("server-stream-misframed", key, dict(d, reader=str(ex), written_len=len(written),
+                                                      written_prefix=lib.jsonable(written[:12])), "WebSocketTemporaryHandler.send")
+            continue
+        ok_ = len(got) == len(want) and all(g[:4] == (1, 0, w[0], 0) and (w[1] is None or g[4] == w[1])
+                                            for g, w in zip(got, want))
+        if not ok_:
+            viol("server-stream-misframed", key,
+                 dict(d, client_sees=[[g[2], len(g[4]), g[0], g[3]] for g in got[:8]],
+                      expected=[[w[0], None if w[1] is None else len(w[1])] for w in want[:8]],
+                      written_prefix=lib.jsonable(written[:12])), "WebSocketTemporaryHandler.send")
+
+    # ---- send() issued from inside the endpoint callback while a chunked client stream is being parsed
+    from mpgameserver.http_server import WebSocketTemporaryHandler, WebSocketTemporaryRingBuffer
+    for _ in range(200 if run.thorough() else 40):
+        msgs = [r.choice(small) for _ in range(r.randrange(1, 5))]
+        msgs = [m for m in msgs if surrogate_free(m)]
+        fr = []
+        for m in msgs:
+            fr.append((1, 0, 0, 0, 1, 1, rnd_bytes(r, 4), 0, m.encode("utf-8")))
+            if r.random() < 0.3:
+                fr.append((1, 0, 0, 0, 2, 1, rnd_bytes(r, 4), 0, rnd_bytes(r, r.randrange(0, 9))))
+        stream = b"".join(rfc_encode(*f[:7], f[8]) for f in fr)
+        pts = sorted(r.randrange(0, len(stream) + 1) for _ in range(r.randrange(0, 5)))
+        chunks = [stream[a:b] for a, b in zip([0] + pts, pts + [len(stream)])]
+        req, ep = Req(), EchoEndpt()
+        h = WebSocketTemporaryHandler(("h", 1), {}, {}, WebSocketTemporaryRingBuffer(req), ep)
+        err = 0
+        try:
+            for c in chunks:
+                h(c)
+        except Exception as ex:      # noqa
+            err = lib.exc_code(ex)
+        run.evaluations += 1
+        written = b"".join(req.out)
+        want = [x for m in msgs for x in (m.encode("utf-8"), m.upper().encode("utf-8"))]
+        d = {"messages": [(len(m), len(m.encode("utf-8"))) for m in msgs], "chunk_sizes": [len(c) for c in chunks]}
+        try:
+            got = rfc_parse_all(written)
+        except ValueError as ex:
+            got = str(ex)
+        if err or got != [(1, 0, 1, 0, w) for w in want] or [x[1] for x in ep.log if x[0] == 1] != msgs:
+            viol("echo-from-callback-misframed", (True, len(msgs) > 1),
+                 dict(d, exception=err, client_sees=got if isinstance(got, str) else [[g[2], len(g[4])] for g in got[:8]],
+                      expected=[[1, len(w)] for w in want[:8]]), "WebSocketTemporaryHandler.send inside callback")
+        run.nt(("echo", repr(msgs), tuple(len(c) for c in chunks)))
+    # ---- several connections alive in one process, their reads interleaved: each endpoint gets exactly its own frames
+    for _ in range(150 if run.thorough() else 30):
+        k = r.choice([2, 2, 3])
+        conns = []
+        for _ in range(k):
+            fr = client_frames(r, r.randrange(1, 6), maxlen=r.choice([10, 140]))
+            stream = b"".join(rfc_encode(*f[:7], f[8]) for f in fr)
+            pts = sorted(r.randrange(0, len(stream) + 1) for _ in range(r.randrange(0, 6)))
+            chunks = [stream[a:b] for a, b in zip([0] + pts, pts + [len(stream)])]
+            req, ep = Req(), Endpt()
+            conns.append([fr, chunks, 0, WebSocketTemporaryHandler(("h", 1), {}, {}, WebSocketTemporaryRingBuffer(req), ep), ep, req, 0])
+        order = [i for i, c in enumerate(conns) for _ in c[1]]
+        r.shuffle(order)
+        for i in order:
+            c = conns[i]
+            try:
+                c[3](c[1][c[2]])
+            except Exception as ex:      # noqa
+                c[6] = lib.exc_code(ex)
+            c[2] += 1
+        for i, c in enumerate(conns):
+            run.evaluations += 1
+            want = [[f[4], f[8]] for f in c[0]]
+            nclose = 1 if any(f[4] == 8 for f in c[0]) else 0
+            try:
+                wr = rfc_parse_all(b"".join(c[5].out))
+            except ValueError:
+                wr = None
+            if c[4].log != want or c[6] or bytes(c[3]._buffer.buf) != b"" or wr is None or [g[2] for g in wr] != [8] * nclose:
+                viol("stream-not-delivered-exactly-once-in-order", ("interleaved", k),
+                     {"connections_alive": k, "connection": i, "frames": [[f[4], len(f[8])] for f in c[0]],
+                      "chunk_sizes": [len(x) for x in c[1]], "delivered": [[d[0], len(d[1])] for d in c[4].log], "exception": c[6],
+                      "left_in_buffer": len(c[3]._buffer.buf), "interleaving": order[:30],
+                      "server_wrote": None if wr is None else [[g[2], len(g[4])] for g in wr]},
+                     "WebSocketTemporaryHandler.__call__ (several connections in one process)")
+        run.nt(("interleaved", tuple(order)))
+    run.exhaustive.append("constructors: Ping/Pong/Binary/Close/Text x every boundary 125/126/127/65535/65536 counted in bytes and "
+                          "(Text) counted in characters of 1-, 2-, 3- and 4-byte code points")
+
 
 
 def run(run):
@@ -434,4 +834,5 @@ def run(run):
     run.count("oracle_stream_violations", nv)
     k = next((i for i, (c, ch, fr) in enumerate(fcases) if fr and len(ch) == 3), 0)
     run.sample({"unit": "ws_feed", "chunks": lib.jsonable(fcases[k][1]), "impl": lib.jsonable(impl_f[k])})
+    constructors_and_send(run, viol)
     run.rules.append(RULE)
